@@ -32,6 +32,7 @@ def main():
     ap.add_argument("--suite", action="store_true")
     ap.add_argument("--keep", action="store_true")
     ap.add_argument("--seed", default="0")
+    ap.add_argument("--save", default=None, help="name under /verif/seeded/<prop>/ to keep this change (with what was run)")
     a = ap.parse_args()
     d = os.path.abspath(a.dir)
     meta = json.load(open(os.path.join(d, "meta.json"))) if os.path.exists(os.path.join(d, "meta.json")) else {}
@@ -75,6 +76,25 @@ def main():
                 if a.keep:
                     shutil.copy(p, os.path.join(d, "replay_from_check.json"))
         res["caught"] = rc == 1
+        if a.save:
+            dst = os.path.join(VERIF, "seeded", prop, a.save)
+            os.makedirs(dst, exist_ok=True)
+            for f in ("patch.diff", "demo.py"):
+                if os.path.exists(os.path.join(d, f)):
+                    shutil.copy(os.path.join(d, f), os.path.join(dst, f))
+            m = dict(meta)
+            m["property"] = prop
+            m["confirmed_by_coordinator"] = {
+                "how": "scratch copy of /repo at its current HEAD (rsync, patch -p1), PYTHONPATH=<copy>; "
+                       "demo.py run without and with the patch; full test suite with the patch (when --suite); "
+                       "then OPERON_REPO=<copy> ./check " + prop + " --tier " + a.tier,
+                "repo_head": sh("git -C /repo rev-parse --short HEAD")[1].strip(),
+                "demo_rc_without_patch": res.get("demo_clean_rc"), "demo_rc_with_patch": res.get("demo_patched_rc"),
+                "suite_with_patch": res.get("suite_tail"),
+                "check_exit": rc, "check_lines": res["check_lines"],
+                "check_replay": res.get("replay"),
+            }
+            json.dump(m, open(os.path.join(dst, "meta.json"), "w"), indent=1, default=str)
         print(json.dumps(res, indent=1, default=str)[:6000])
         return 0
     finally:
